@@ -235,6 +235,8 @@ def ordered_dicts(fn: ast.FunctionDef, roots: set[str]) -> set[str]:
 
     def comp_ordered(v) -> bool:
         """{key: .. for key in good} / {key: .. for key, _ in good.items()} / dict(good) / dict(good.items())"""
+        if isinstance(v, ast.Name) and v.id in good:          # an alias of an ordered dict
+            return True
         if isinstance(v, ast.Call) and u(v.func) == "dict" and len(v.args) == 1 and not v.keywords:
             a = v.args[0]
             return (isinstance(a, ast.Name) and a.id in good) or (
@@ -825,7 +827,17 @@ def _hook_row(cls: ast.ClassDef, ancestors=(), mods=None):
                 return fn
             return normalise(fn, mods[id(owner)], owner.name, KEEP)
         gs, ss = normal(gs), normal(ss)
-    inits = [n for c in chain for n in c.body if isinstance(n, ast.FunctionDef) and n.name == "__init__"]
+    raw_inits = [n for c in chain for n in c.body if isinstance(n, ast.FunctionDef) and n.name == "__init__"]
+    inits = [normal(n) for n in raw_inits] if mods else raw_inits
+
+    def private_calls(fn) -> set:
+        return {n.func.attr for n in ast.walk(fn) if isinstance(n, ast.Call) and isinstance(n.func, ast.Attribute)
+                and isinstance(n.func.value, ast.Name) and n.func.value.id == "self" and n.func.attr.startswith("_")} if fn else set()
+    # private helper methods that were inlined into __init__ / __setstate__ are part of them, not "other methods"
+    raw_ss = meths.get("__setstate__")
+    inlined = set()
+    for raw, norm in [(raw_ss, ss)] + list(zip(raw_inits, inits)):
+        inlined |= private_calls(raw) - private_calls(norm)
     if not inits:
         fail(cls, f"class {cls.name} has pickle hooks but no __init__ among the scanned classes")
     init: dict = {}
@@ -841,7 +853,10 @@ def _hook_row(cls: ast.ClassDef, ancestors=(), mods=None):
     stateful: set = set()
     for c in chain:
         for fn in c.body:
-            if isinstance(fn, (ast.FunctionDef, ast.AsyncFunctionDef)) and fn.name not in ("__init__", "__setstate__", "__getstate__"):
+            if isinstance(fn, (ast.FunctionDef, ast.AsyncFunctionDef)) and fn.name not in ("__init__", "__setstate__", "__getstate__") \
+                    and not (fn.name in inlined and not any(fn.name in private_calls(o) for cc in chain for o in cc.body
+                                                            if isinstance(o, ast.FunctionDef)
+                                                            and o.name not in ("__init__", "__setstate__"))):
                 for n in ast.walk(fn):
                     tgts = []
                     if isinstance(n, ast.Assign):
